@@ -57,7 +57,9 @@ def validate(d):
 def detect(d, tier="quick", props=None):
     d = os.path.abspath(d)
     meta = json.load(open(os.path.join(d, "meta.json")))
-    props = props or [meta["property"]]
+    # `checked_by`: the change no longer breaks the property it was written against on the repaired
+    # tree, but another one (see meta["reclassified"])
+    props = props or meta.get("checked_by") or [meta["property"]]
     rc, o = sh("git -C %s status --porcelain" % REPO)
     if o.strip():
         print("refusing: /repo has uncommitted changes:\n" + o)
@@ -99,7 +101,9 @@ def matrix(tier="quick", every=False):
         results[name] = r
         print(name, json.dumps(r), flush=True)
     json.dump(results, open(os.path.join(VERIF, "seeded", "RESULTS-%s%s.json" % (tier, "-all" if every else "")), "w"), indent=1)
-    missed = [k for k, v in results.items() if not v or not any(x["rc"] == 1 for x in v.values() if isinstance(x, dict))]
+    stale = [k for k, v in results.items() if v and "error" in v]
+    missed = [k for k, v in results.items() if k not in stale and (not v or not any(x["rc"] == 1 for x in v.values() if isinstance(x, dict)))]
+    print("DOES-NOT-APPLY:", stale)
     print("MISSED:", missed)
 
 
